@@ -73,6 +73,12 @@ def configs(tier):
             out.append({"N": 2, "opts": {"adaptive": False, "n_steps": n}, "sampler": "emcee_smc"})
             out.append({"N": 4, "opts": {"adaptive": False, "n_steps": n, "n_final_samples": 6}, "sampler": "smc"})
             out.append({"N": 4, "opts": {"adaptive": False, "n_steps": n, "min_step": 0.3}, "sampler": "smc"})
+    # a coarse bisection tolerance: it is the resolution of the adaptive search, not a license to stop short of 1
+    for n in (12, 30):
+        out.append({"N": 2, "opts": {"adaptive": False, "n_steps": n, "beta_tolerance": 0.1}, "sampler": "smc", "bound": 1, "horizon": 100})
+    for te in (0.5, 0.9):
+        out.append({"N": 4, "opts": {"adaptive": True, "target_efficiency": te, "beta_tolerance": 0.1, "min_step": 0.05}, "sampler": "smc"})
+        out.append({"N": 4, "opts": {"adaptive": True, "target_efficiency": te, "beta_tolerance": 0.3, "min_step": 0.11}, "sampler": "smc"})
     # a step cap combined with a fixed schedule
     for n, cap in ((6, 3), (3, 6), (10, 4), (4, 1)):
         out.append({"N": 4, "opts": {"adaptive": False, "n_steps": n, "max_n_steps": cap}, "sampler": "smc"})
